@@ -145,7 +145,7 @@ Definition check_case (c : case) : Z :=
       | WNoRoute => if status =? 404 then 0 else 71
       | WMethodNotAllowed => if status =? 405 then 0 else 72
       | WUnauthorized _ => if status =? 401 then 0 else 73
-      | WServed _ _ => if negb (status =? 401) && negb (status =? 404) && negb (status =? 405) then 0 else 74
+      | WServed _ _ => if negb (status =? 401) && negb (status =? 405) then 0 else 74     (* a handler may itself answer 404 *)
       end
   end.
 
